@@ -46,22 +46,26 @@ Definition resolve_name (p : prog) (n : name) : res ty :=
   | Some d => Ok (match d_kind d with DEnum => Enum n | _ => Cls n end)
   | None => Raise TypeResolutionError   (* a name no loaded module declares: manually_search_for_class_name gives up *)
   end.
-(* ns: the diagram's classes, the fallback namespace of resolved_type (keyed by __name__).
-   sh: what a name denotes once the fallback namespace is in force.  The retry passes {__name__: class} of ALL diagram
-   classes as local namespace, which takes precedence over the module's globals: a name whose class has a namesake in the
-   diagram then denotes the LAST diagram class of that __name__ ([shadow]); without a retry sh is the identity. *)
-Definition pyname_of (p : prog) (m : name) : name :=
-  match find_decl p m with Some d => d_pyname d | None => m end.
+(* ns: the diagram's classes.  resolved_type's retry (since cfad88b) puts ONLY the names the module could not resolve
+   into the local namespace, each looked up among the diagram's classes by __name__ (a dict: the last class of that
+   __name__ wins) and otherwise by a scan of the loaded modules.  The local namespace takes precedence over the module
+   globals for every class of the MRO, so a leaf whose __name__ equals that of a missing name is re-bound as well.
+   sh: what a name denotes in that evaluation.  [sh_of_old] is the retry before cfad88b (the whole diagram went into the
+   local namespace whenever a retry was needed), kept for the regression theorem. *)
+Definition diagram_lookup (p : prog) (ns : list name) (n : name) : option name :=
+  match rev (filter (fun m => Pos.eqb (pyname_of p m) (pyname_of p n)) ns) with m :: _ => Some m | [] => None end.
 Definition shadow (p : prog) (ns : list name) (n : name) : name :=
-  match rev (filter (fun m => Pos.eqb (pyname_of p m) (pyname_of p n)) ns) with m :: _ => m | [] => n end.
+  match find_decl p n, diagram_lookup p ns n with Some _, Some m => m | _, _ => n end.
 Definition needs_retry (p : prog) (c : name) : bool := match unresolved p c with [] => false | _ => true end.
 Definition sh_of (p : prog) (ns : list name) (c : name) : name -> name :=
+  fun n => if existsb (fun m => Pos.eqb (pyname_of p m) (pyname_of p n)) (unresolved p c) then shadow p ns n else n.
+Definition sh_of_old (p : prog) (ns : list name) (c : name) : name -> name :=
   if needs_retry p c then shadow p ns else (fun n => n).
 
 Fixpoint resolve (p : prog) (ns : list name) (sh : name -> name) (t : ty) : res ty :=
   match t with
   | Fwd n => resolve_name p (sh n)
-  | FwdLocal n => if mem n ns then resolve_name p (sh n) else Raise TypeResolutionError
+  | FwdLocal n => match diagram_lookup p ns n with Some m => resolve_name p m | None => Raise TypeResolutionError end
   | Optional a => bind (resolve p ns sh a) (fun a' => Ok (Optional a'))
   | OptionalL a => bind (resolve p ns sh a) (fun a' => Ok (OptionalL a'))
   | Pep604 a => bind (resolve p ns sh a) (fun a' => Ok (Pep604 a'))
